@@ -8,7 +8,53 @@ wt = tempfile.mkdtemp(prefix="verif-port-", dir="/tmp")
 env = dict(os.environ, GOFLAGS="-mod=mod", GOPROXY="off", GOSUMDB="off", GOTOOLCHAIN="local")
 def run(*a, **k): return subprocess.run(a, cwd=wt, env=env, capture_output=True, text=True, **k)
 subprocess.run(["git", "-C", "/repo", "worktree", "add", "-q", "--detach", wt, "HEAD"], check=True)
+def resolve(union_all):
+    run("git", "reset", "-q", "--hard"); run("git", "clean", "-fdq")
+    run("git", "apply", "--3way", patch)
+    files = run("git", "diff", "--name-only", "--diff-filter=U").stdout.split()
+    for f in files:
+        p = os.path.join(wt, f); out = []; state = None; ours = []; theirs = []
+        lines = open(p).read().split("\n")
+        for i, l in enumerate(lines):
+            if l.startswith("<<<<<<< "): state = "o"; ours = []; theirs = []; start = i; continue
+            if l.startswith("=======") and state == "o": state = "t"; continue
+            if l.startswith(">>>>>>> ") and state == "t":
+                if start < 25 or union_all:
+                    seen = []
+                    for x in ours + theirs:
+                        if x not in seen or x.strip() == "": seen.append(x)
+                    out += seen
+                else:
+                    out += theirs
+                state = None; continue
+            if state == "o": ours.append(l)
+            elif state == "t": theirs.append(l)
+            else: out.append(l)
+        open(p, "w").write("\n".join(out))
+        run("gofmt", "-w", f)
+    b = run("go", "build", "./...")
+    if b.returncode != 0:
+        m = re.findall(r'(\S+\.go):\d+:\d+: "(\w+)" imported and not used', b.stderr)
+        for f, imp in m:
+            p = os.path.join(wt, f); s = open(p).read(); s = s.replace('\t"%s"\n' % imp, "", 1); open(p, "w").write(s)
+        b = run("go", "build", "./...")
+    return b
+
 try:
+    b = resolve(False)
+    if b.returncode != 0:
+        # both sides only added something at the same place: keep both
+        b = resolve(True)
+    if b.returncode != 0:
+        print("PORT-FAILED", patch, b.stderr[:800]); sys.exit(1)
+    run("git", "add", "-A")
+    d = run("git", "diff", "--cached", "HEAD", "--", ".", ":!seeded_demo").stdout
+    orig = os.path.join(os.path.dirname(patch), os.path.basename(patch).replace(".diff", ".orig.diff").replace(".patch", ".orig.patch~"))
+    if not os.path.exists(orig):
+        shutil.copy(patch, orig)
+    open(patch, "w").write(d)
+    print("PORTED", patch)
+    sys.exit(0)
     run("git", "apply", "--3way", patch)
     files = run("git", "diff", "--name-only", "--diff-filter=U").stdout.split()
     for f in files:
